@@ -65,7 +65,7 @@ ASSUMPTIONS = [
 
 HDR = 'From ScaredV Require Import Model.Kernels.\nFrom ScaredV Require Model.Partitioned.'
 METRICS = ['ANOVA', 'NICV', 'SNR']
-THREADS = [1, 2, 3, 8, 16]
+THREADS = [1, 2, 3, 5, 8, 16]
 INT_DTYPES = ('uint8', 'int8', 'int16', 'int32', 'int64')
 
 
@@ -439,7 +439,7 @@ def _float_traces(rng, n, S, data, tdtype, offset, amp):
 
 
 def part_case(rng, metric, prec, tdtype, P, S, W, n, nb, lists, *, kindv='int', lo=0, hi=40, exp=0, offset=0.0, amp=1.0,
-              threads=(1, 2, 3, 8, 16), real_lut=0, parts=None, heavy=2):
+              threads=(1, 2, 3, 5, 8, 16), real_lut=0, parts=None, heavy=2):
     parts = list(parts) if parts is not None else list(range(P))
     undeclared = [v for v in range(0, max(parts) + 4) if v not in parts][:3]
     data = _data(rng, n, W, parts, undeclared)
@@ -540,7 +540,7 @@ def _pops(rng, P, total, must):
     return out
 
 
-def ttest_case(rng, prec, tdtype, S, n, nb, kindv='int', lo=0, hi=255, offset=0.0, amp=1.0, threads=(1, 2, 3, 8, 16)):
+def ttest_case(rng, prec, tdtype, S, n, nb, kindv='int', lo=0, hi=255, offset=0.0, amp=1.0, threads=(1, 2, 3, 5, 8, 16)):
     if kindv == 'int':
         ext = [lo, hi, hi, hi - 1, lo + 1]
         traces, e = [[rng.choice(ext) if rng.random() < 0.5 else rng.randint(lo, hi) for _ in range(S)] for _ in range(n)], 0
@@ -550,7 +550,7 @@ def ttest_case(rng, prec, tdtype, S, n, nb, kindv='int', lo=0, hi=255, offset=0.
             'threads': list(threads), 'sig': f'ttest/{tdtype}/{prec}', 'flavour': kindv if kindv == 'int' else f'float+{offset:g}'}
 
 
-def mia_case(rng, tdtype, P, S, W, n, nb, lo, hi, step, kindv='int', threads=(1, 2, 3, 8, 16)):
+def mia_case(rng, tdtype, P, S, W, n, nb, lo, hi, step, kindv='int', threads=(1, 2, 3, 5, 8, 16)):
     parts = list(range(P))
     data = _data(rng, n, W, parts, [P + 1])
     edges = list(range(lo, hi + 1, step))
@@ -568,6 +568,36 @@ def mia_case(rng, tdtype, P, S, W, n, nb, lo, hi, step, kindv='int', threads=(1,
             'splits': _splits(rng, n, nb), 'threads': list(threads), 'sig': f'mia/{tdtype}', 'flavour': kindv, 'prec': 'uint32'}
 
 
+def mia_edge_case(rng, tdtype, edges_kind, NB, P, S, W, n, nb, threads=(1, 2, 3, 5, 8, 16)):
+    """More data words than samples, few samples; samples exactly on, one ulp below and one ulp above the interior bin edges."""
+    if edges_kind == 'linspace01':
+        edges = np.linspace(0.0, 1.0, NB + 1)
+    elif edges_kind == 'linspace':
+        edges = np.linspace(-1.0, 2.0, NB + 1)
+    elif edges_kind == 'arange_den':
+        edges = np.arange(NB + 1) / float(NB)
+    elif edges_kind == 'arange_step':
+        edges = np.arange(NB + 1) * 0.1
+    else:
+        edges = np.arange(NB + 1, dtype='float64') * 3.0
+    T = np.dtype(tdtype).type
+    pool = []
+    for ed in edges:
+        c = T(ed)
+        if abs(float(c)) >= 2.0 ** -20:
+            pool += [c, np.nextafter(c, T(-np.inf)), np.nextafter(c, T(np.inf))]
+        else:           # around zero one ulp is a subnormal (a 300-digit literal): use +-2^-40
+            pool += [c, T(float(c) - 2.0 ** -40), T(float(c) + 2.0 ** -40)]
+    pool += [T(k / 10.0) for k in range(0, 11)] + [T(edges[0] - 0.5), T(edges[-1] + 0.5)]
+    pool = [float(v) for v in pool]
+    lo, hi = float(edges[0]), float(edges[-1])
+    rows = [[rng.choice(pool) if rng.random() < 0.8 else float(T(rng.uniform(lo, hi))) for _ in range(S)] for _ in range(n)]
+    zz, e = _to_zexp(rows + [[float(v) for v in edges]])
+    parts = list(range(P))
+    return {'kind': 'mia', 'tdtype': tdtype, 'ddtype': 'uint8', 'parts': parts, 'exp': e, 'edges': zz[-1], 'traces': zz[:-1], 'data': _data(rng, n, W, parts, [P + 1]),
+            'splits': _splits(rng, n, nb), 'threads': list(threads), 'sig': f'mia/{tdtype}', 'flavour': 'edges_' + edges_kind, 'prec': 'uint32'}
+
+
 class KernelKind(Kind):
     name = 'kernels'
     header = HDR
@@ -581,7 +611,7 @@ class KernelKind(Kind):
             '{1,2,3,8,16}, class-set sizes 2, 8, 9, 10, 12 (the hook log must be empty above 9 classes), undeclared values in the data, '
             'integer traces (int16, int64 incl. multiples of 2^33; exact: ONE bit-identical observation over all runs, equal to the class '
             'sums), float32 / float64 traces with offsets 0, 1000.123, 1e6 and precision float32 / float64 (incl. float32 traces with '
-            'float64 precision), a wide case (48 samples x 64 traces per batch, 8/16 threads) as a race probe; run-length encoded batches with class populations and batch sizes at 255..4097 (powers of two and their neighbours) for both kernel pairs under every choice sequence; the t-test accumulator and the MIA distinguisher under 1,2,3,8,16 threads (narrow integer dtypes with extreme values, float32 traces with float64 precision); non-trivial = at least two '
+            'float64 precision), a wide case (48 samples x 64 traces per batch, 8/16 threads) as a race probe; run-length encoded batches with class populations and batch sizes at 255..4097 (powers of two and their neighbours) for both kernel pairs under every choice sequence; the t-test accumulator and the MIA distinguisher under 1,2,3,5,8,16 threads (narrow integer dtypes with extreme values, float32 traces with float64 precision; MIA shapes with 1-4 samples and 5-20 data words, float64 / float32 samples exactly on and one ulp either side of interior bin edges built by linspace / arange(n)/den / arange*0.1, integer samples on integer edges; histograms against Mia.hist_spec), partitioned kernel 1 with 1-3 samples and more words than samples; non-trivial = at least two '
             'distinct choice sequences or thread counts ran and some class holds two traces')
 
     def __init__(self):
@@ -690,6 +720,22 @@ class KernelKind(Kind):
         yield ttest_case(rng, 'float64', 'float32', 3, 40, 2, kindv='float', offset=1000.123, amp=1.0)
         yield mia_case(rng, 'uint8', 4, 2, 2, 60, 2, 0, 256, 32)
         yield mia_case(rng, 'float32', 3, 2, 1, 50, 2, 0, 16, 2, kindv='float')
+        # fewer samples than worker threads, more data words than samples; samples on / one ulp off the interior bin edges
+        yield mia_edge_case(rng, 'float64', 'linspace01', 10, 4, 4, 12, 48, 2)
+        yield mia_edge_case(rng, 'float32', 'arange_den', 10, 3, 2, 6, 40, 2)
+        yield mia_edge_case(rng, 'float64', 'linspace', 7, 3, 1, 5, 40, 2)
+        yield mia_case(rng, 'uint8', 3, 3, 8, 50, 2, 0, 240, 30)
+        yield ttest_case(rng, 'float32', 'uint8', 1, 30, 2, lo=0, hi=255)
+        yield part_case(rng, metric(), 'float32', 'int16', 9, 1, 5, 30, 2, _all_lists(2) + [[0, 0], [0, 1]], lo=-20, hi=40, threads=(5, 16, 8, 3, 16, 5), heavy=2)
+        if not quick:
+            for td in ('float64', 'float32'):
+                for ek in ('linspace01', 'linspace', 'arange_den', 'arange_step', 'int3'):
+                    yield mia_edge_case(rng, td, ek, rng.choice([4, 7, 10, 16]), rng.choice([2, 4, 9]), rng.randint(1, 4), rng.randint(5, 20), 60, rng.randint(1, 3))
+            yield mia_case(rng, 'int16', 4, 2, 16, 80, 2, -60, 60, 12)
+            yield ttest_case(rng, 'float64', 'float32', 1, 50, 3, kindv='float', offset=1000.123, amp=1.0)
+            for S_ in (1, 2, 3):
+                yield part_case(rng, metric(), 'float64', 'int16', rng.choice([8, 9]), S_, rng.randint(4, 8), 36, 3, _all_lists(3), lo=-300, hi=300,
+                                threads=(5, 16, 8, 3, 2, 16, 1, 5), heavy=2)
         if not quick:
             yield ttest_case(rng, 'float32', 'int8', 3, 60, 2, lo=-128, hi=127)
             yield ttest_case(rng, 'float64', 'uint8', 3, 200, 4, lo=0, hi=255)
